@@ -123,7 +123,7 @@ def gen_config(rng, tier, profile):
   if profile in ('c07', 'c15') and rng.random() < 0.3:
     # connection-quality resets: the relay compares what a destination was sent with
     # what was received over the last instrumentation interval
-    s['CARBON_METRIC_INTERVAL'] = rng.choice([1, 2, 10])
+    s['CARBON_METRIC_INTERVAL'] = rng.choice([2, 5, 10])
     s['USE_RATIO_RESET'] = True
     s['MIN_RESET_STAT_FLOW'] = rng.choice([1, 3])
     s['MIN_RESET_RATIO'] = rng.choice([0.5, 0.9])
